@@ -1,6 +1,7 @@
 """C15 ODS sheets are read as the logical table they contain."""
 import itertools
 import os
+import re
 
 from cpverif import storage
 
@@ -318,6 +319,24 @@ def check_faults(ctx, index):
                 assert 'text:c="2"' in xml
                 storage.write_ods_raw(path, xml.replace('text:c="2"', 'text:c="%s"' % attr).encode("utf-8"))
                 expect_format_error(ctx, {"fault": "space-count", "value": attr}, path, 1, "space-count:%s" % kind_of(attr))
+        # a sheet that is nothing but its element (no column, no row): the k-th sheet all the same, with no rows
+        xml = storage.ods_content([[["a"]], [], [["z"]]], ())
+        bare = re.sub(r'(<table:table table:name="Sheet2">).*?(</table:table>)', r'<table:table table:name="Sheet2"/>', xml, count=1, flags=re.S)
+        assert bare != xml
+        storage.write_ods_raw(path, bare.encode("utf-8"))
+        from cutplace import errors as _errors, rowio as _rowio
+
+        for sheet_number, want in ((1, [["a"]]), (2, []), (3, [["z"]])):
+            sheet_case = {"fault": None, "what": "sheet without any child element", "sheet": sheet_number}
+            ctx.case(sheet_case, True)
+            ctx.count("sheets-without-children.judged")
+            try:
+                got = list(_rowio.ods_rows(path, sheet_number))
+            except Exception as error:
+                ctx.violation("C15:sheet-without-children", sheet_case, "reading sheet %d of a document whose second sheet has no child element failed" % sheet_number, expected=want, observed=error)
+                continue
+            if got != want:
+                ctx.violation("C15:sheet-without-children", sheet_case, "sheet %d of a document whose second sheet has no child element was read as another table" % sheet_number, expected=want, observed=got)
         # a broken count on the last row element, which holds only empty cells or no cell at all (where the filler rows of
         # spreadsheet applications sit): broken all the same
         for attr in ("0", "-1", "-0", " 0 ", "x", "1.5", ""):
